@@ -173,12 +173,19 @@ class Visitor(object):
             case = dict(scenario=sc['name'], choices=ex.taken(), preemptions=ex.preemptions(), switches=switch_summary(ex),
                         results=ex.results, alone=[r for r, _ in ref], signature=sig)
             sub.violation(sig, case, msg)
-            if first:      # re-execute from the recorded choice list: must reproduce identically, twice
+            if first:      # re-execute from the recorded choice list, twice
+                identical, violating = 0, 0
                 for _ in range(2):
                     again = execute(self.w, sc, ex.taken())
-                    if again.trace != ex.trace or outcome(again) != outcome(ex):
-                        raise core.HarnessError('C22: violation %s did not reproduce from its choice list' % sig)
-                sub.count('violations_replayed_identically')
+                    if again.trace == ex.trace and outcome(again) == outcome(ex): identical += 1
+                    if compare(sc, again, ref): violating += 1
+                if identical == 2: sub.count('violations_replayed_identically')
+                elif violating:
+                    # same schedule, another failing outcome: the code under test iterates over sets of
+                    # objects hashed by address (e.g. PreTranslator.externals), which no scheduler controls
+                    sub.count('violations_whose_outcome_varies_between_replays')
+                else:
+                    raise core.HarnessError('C22: violation %s did not reproduce from its choice list' % sig)
     def result(self, exp, t0, c0, **extra):
         self.sub.count('replayed_prefixes_identical_to_parent_execution', exp.prefix_checks)
         return dict(sub=self.sub.dump(), name=self.sc['name'], executions=exp.executions, edges=exp.edges,
@@ -424,6 +431,9 @@ def run(ctx):
                'races inside a single source line (or inside functions not listed) are not explored')
     ctx.assume('CPython 3.12 with the GIL; SQLite file database; one fresh connection per thread and execution')
     ctx.assume('schedules beyond the completed preemption bound are not covered')
+    ctx.assume('iteration order over sets of objects hashed by address inside the code under test (PreTranslator.externals) is not '
+               'controlled: a failing schedule whose failing outcome varies between replays is still reported (counter '
+               'violations_whose_outcome_varies_between_replays); a violation that no replay reproduces is a harness error')
     return dict(states=agg['edges'] + len(per), transitions=agg['edges'], traces_validated_against_impl=agg['executions'])
 
 def replay(ctx, case):
